@@ -5,8 +5,13 @@
 //
 // (a) C09  one limiter shared by the three protocols (sequential rotations + simultaneous requests)
 // (b) C12  the same request sequence gets the same answers on every protocol; omitted quantity = 1
-// (c) C11  hostile numbers / garbage / abrupt closes leave every protocol serving, process alive
+// (c) C11  hostile numbers / hostile keys (each DENIED once) / garbage / abrupt closes leave every protocol
+//          serving - a fresh request, then a request pair allowed + DENIED - the process alive and GET
+//          /metrics listing the keys just denied
 // (d) C15  GET /metrics at the quiescent end agrees with what the clients sent and were told
+// The server's --log-level is error | info | debug per instance (seed-chosen): argument formatting inside
+// `tracing::debug!` only runs at debug level.
+use crate::cmd::hostile_keys;
 use crate::metrics::lex_sample;
 use crate::util::*;
 use crate::wire::{grpc_call, http_raw, http_throttle, json_body, resp_answer, resp_command, Logical, Ports, Proto, RespConn, WireAns};
@@ -148,6 +153,44 @@ struct Cx {
     log: Vec<String>,
     resp_conn: Option<RespConn>,
     launch: String,
+    /// key -> number of times a client was told allowed=false for it
+    denied_keys: BTreeMap<String, u64>,
+}
+
+/// undo the exporter's label escaping (`\\ \" \n \r \t \xNN`)
+fn unescape_label(s: &str) -> String {
+    let cs: Vec<char> = s.chars().collect();
+    let mut o = String::new();
+    let mut i = 0;
+    while i < cs.len() {
+        if cs[i] == '\\' && i + 1 < cs.len() {
+            i += 1;
+            match cs[i] {
+                'n' => o.push('\n'),
+                'r' => o.push('\r'),
+                't' => o.push('\t'),
+                'x' if i + 2 < cs.len() => {
+                    let h: String = cs[i + 1..i + 3].iter().collect();
+                    o.push(u8::from_str_radix(&h, 16).map(|b| b as char).unwrap_or('?'));
+                    i += 2;
+                }
+                c => o.push(c),
+            }
+        } else {
+            o.push(cs[i]);
+        }
+        i += 1;
+    }
+    o
+}
+
+/// `throttlecrab_top_denied_keys` samples of an export: (unescaped key, value)
+fn top_denied_lines(text: &str) -> Vec<(String, String)> {
+    text.split('\n')
+        .filter(|l| l.starts_with("throttlecrab_top_denied_keys"))
+        .filter_map(|l| lex_sample(l).ok())
+        .map(|s| (unescape_label(&s.labels.iter().find(|l| l.0 == "key").map(|l| l.1.clone()).unwrap_or_default()), s.value))
+        .collect()
 }
 
 impl Cx {
@@ -180,8 +223,17 @@ impl Cx {
             }
         };
         self.tally.account(proto, &ans, status);
+        if let WireAns::Ok(false, ..) = ans {
+            *self.denied_keys.entry(l.key.clone()).or_insert(0) += 1;
+        }
+        let desc = if desc.len() > 500 { format!("{}... ({} bytes)", desc.chars().take(400).collect::<String>(), desc.len()) } else { desc };
         self.log.push(format!("{desc} -> {}", ans.show()));
         ans
+    }
+
+    /// the keys the denied-keys table must hold (it ignores keys longer than 256 bytes)
+    fn tracked_denied(&self) -> Vec<(&String, u64)> {
+        self.denied_keys.iter().filter(|(k, _)| k.len() <= 256).map(|(k, c)| (k, *c)).collect()
     }
 
     /// raw RESP bytes on the given connection; counts as a redis request iff a reply other than the
@@ -305,7 +357,10 @@ async fn shared_limiter(cx: &mut Cx, inst: usize, out: &mut Out) {
             cx.tally.account(proto, &a, st);
             match a {
                 WireAns::Ok(true, ..) => admitted += 1,
-                WireAns::Ok(false, ..) => denied += 1,
+                WireAns::Ok(false, ..) => {
+                    denied += 1;
+                    *cx.denied_keys.entry(key.clone()).or_insert(0) += 1;
+                }
                 _ => {}
             }
             answers.push(format!("{proto:?}:{}", a.show()));
@@ -400,7 +455,7 @@ async fn same_answers(cx: &mut Cx, inst: usize, out: &mut Out) {
 // ----------------------------------------------------------------------------------------
 // (c) C11
 // ----------------------------------------------------------------------------------------
-async fn no_poison(cx: &mut Cx, inst: usize, child: &mut ChildGuard, out: &mut Out) {
+async fn no_poison(cx: &mut Cx, inst: usize, max_denied: u64, child: &mut ChildGuard, out: &mut Out) {
     let from = cx.log.len();
     for proto in PERMS[inst % 6] {
         let big = if proto == Proto::Grpc { i32::MAX as i64 } else { i64::MAX };
@@ -414,6 +469,36 @@ async fn no_poison(cx: &mut Cx, inst: usize, child: &mut ChildGuard, out: &mut O
             out.bump("hostile_requests");
             if let WireAns::Broken(e) = &a {
                 out.violation("C11", format!("hostile request ({}) got no answer at all on {proto:?}: {e}", describe(&l)), cx.tail(from));
+            }
+        }
+    }
+    // hostile KEYS on every protocol, each in a pair burst 1, 1 per 3600 s: allowed, then DENIED - the denial is
+    // what hands the key to the server's denied-key tracking
+    for (pi, proto) in PERMS[(inst + 1) % 6].into_iter().enumerate() {
+        for (what, key) in hostile_keys(&format!("bin{inst}_{proto:?}_"), pi as u32) {
+            for half in 0..2 {
+                let l = Logical { key: key.clone(), b: 1, c: 1, p: 3600, q: if proto == Proto::Grpc || cx.rng.chance(1, 2) { Some(1) } else { None } };
+                let a = cx.send(proto, &l).await;
+                out.bump("hostile_key_requests");
+                let good = match (&a, half) {
+                    (WireAns::Broken(e), _) => {
+                        out.violation("C11", format!("request {} of a pair on a hostile key ({what}, {} bytes) got no answer at all on {proto:?}: {e}", half + 1, key.len()), cx.tail(from));
+                        true
+                    }
+                    (WireAns::Ok(true, 1, 0, _, _), 0) => true,
+                    (WireAns::Ok(false, 1, 0, _, rt), 1) => {
+                        out.bump("hostile_keys_denied");
+                        *rt >= 0
+                    }
+                    _ => false,
+                };
+                if !good {
+                    out.violation(
+                        "C12",
+                        format!("{proto:?}: request {} of a pair on a fresh hostile key ({what}, {} bytes), burst 1, 1 per 3600 s, answered {}, want {}", half + 1, key.len(), a.show(), if half == 0 { "ok,1,1,0,_,_" } else { "ok,0,1,0,_,>=0" }),
+                        cx.tail(from),
+                    );
+                }
             }
         }
     }
@@ -501,8 +586,60 @@ async fn no_poison(cx: &mut Cx, inst: usize, child: &mut ChildGuard, out: &mut O
             out.violation("C11", format!("after hostile traffic a fresh request (burst {b}) on a new {proto:?} connection was answered {}, want ok,1,{b},{},_,_", a.show(), b - 1), cx.tail(from));
         }
     }
+    // the probe that includes a DENIAL, again on new connections: fresh key, burst 1 -> allowed with nothing
+    // remaining, then denied; both must be answered
+    let mut probe_keys = vec![];
+    for proto in [Proto::Http, Proto::Grpc, Proto::Resp] {
+        let key = format!("bin{inst}_dprobe_{proto:?}");
+        cx.resp_conn = None;
+        for half in 0..2 {
+            let l = Logical { key: key.clone(), b: 1, c: 1, p: 3600, q: Some(1) };
+            let a = cx.send(proto, &l).await;
+            out.bump("probes_with_denial");
+            let good = if half == 0 { matches!(a, WireAns::Ok(true, 1, 0, _, _)) } else { matches!(a, WireAns::Ok(false, 1, 0, _, rt) if rt >= 0) };
+            if !good {
+                out.violation(
+                    "C11",
+                    format!("after hostile traffic, request {} of the denial probe (fresh key, burst 1, 1 per 3600 s) on a new {proto:?} connection was answered {}, want {}", half + 1, a.show(), if half == 0 { "ok,1,1,0,_,_" } else { "ok,0,1,0,_,>=0" }),
+                    cx.tail(from),
+                );
+            }
+        }
+        probe_keys.push(key);
+    }
     if let Some(st) = child.exited() {
         out.violation("C11", format!("the server process is gone after the hostile traffic ({st})"), cx.tail(from));
+    }
+    // GET /metrics still answers and, with tracking enabled, lists the keys denied a moment ago.  A key is
+    // certain to be listed when no more than --max-denied-keys distinct keys (of <= 256 bytes) were denied at
+    // all: the table never evicts then and the report shows all of it.
+    tokio::time::sleep(Duration::from_millis(20)).await;
+    let scrape = http_raw(cx.ports.http, b"GET /metrics HTTP/1.1\r\nHost: x\r\nConnection: close\r\n\r\n").await;
+    out.bump("metrics_scrapes");
+    match scrape {
+        Ok((200, text)) => {
+            let listed = top_denied_lines(&text);
+            let tracked = cx.tracked_denied().len() as u64;
+            if max_denied > 0 && tracked <= max_denied {
+                for k in &probe_keys {
+                    out.bump("probe_keys_expected_in_metrics");
+                    match listed.iter().find(|l| &l.0 == k) {
+                        Some((_, v)) if v == "1" => {}
+                        other => {
+                            let mut replay = cx.tail(from);
+                            replay.extend(text.split('\n').filter(|l| l.starts_with("throttlecrab_top_denied_keys")).take(40).map(|l| format!("# /metrics: {}", l.chars().take(300).collect::<String>())));
+                            out.violation("C16", format!("after the hostile traffic GET /metrics (--max-denied-keys {max_denied}, {tracked} distinct keys denied so far) has for the probe key {k:?}, denied once a moment ago, the top_denied_keys sample {other:?}"), replay);
+                        }
+                    }
+                }
+            } else if max_denied > 0 {
+                out.bump("probe_keys_rank_undetermined");
+                if listed.is_empty() {
+                    out.violation("C15", format!("after the hostile traffic GET /metrics (--max-denied-keys {max_denied}) has no throttlecrab_top_denied_keys sample although {tracked} keys were denied"), cx.tail(from));
+                }
+            }
+        }
+        other => out.violation("C15", format!("after the hostile traffic GET /metrics failed: {other:?}"), cx.tail(from)),
     }
 }
 
@@ -584,6 +721,20 @@ async fn check_metrics(cx: &mut Cx, inst: usize, max_denied: u64, out: &mut Out)
         out.violation("C15", format!("requests_errors = {errors} but the clients saw {} internal errors (HTTP 500 / gRPC status)", t.errors), replay.clone());
     }
     out.add("top_denied_key_lines", top);
+    // when no more than --max-denied-keys distinct keys were denied, the report is the whole table: one sample
+    // per denied key (of <= 256 bytes), valued with the number of denials the clients were told
+    let tracked = cx.tracked_denied();
+    if max_denied > 0 && tracked.len() as u64 <= max_denied {
+        out.bump("exact_reports_checked");
+        let mut got = top_denied_lines(&text);
+        let mut want: Vec<(String, String)> = tracked.iter().map(|(k, c)| ((*k).clone(), c.to_string())).collect();
+        got.sort();
+        want.sort();
+        if got != want {
+            let show = |v: &[(String, String)]| v.iter().map(|(k, c)| format!("{:?}:{c}", k.chars().take(60).collect::<String>())).collect::<Vec<_>>().join(" ");
+            out.violation("C16", format!("--max-denied-keys {max_denied} and {} distinct keys denied, so /metrics must list exactly those with their denial counts; listed: {} ; denied: {}", want.len(), show(&got), show(&want)), replay.clone());
+        }
+    }
     if max_denied == 0 {
         if top_mentions != 0 {
             out.violation("C15", format!("--max-denied-keys 0 but /metrics has {top_mentions} throttlecrab_top_denied_keys lines"), replay.clone());
@@ -599,18 +750,44 @@ async fn check_metrics(cx: &mut Cx, inst: usize, max_denied: u64, out: &mut Out)
 }
 
 // ----------------------------------------------------------------------------------------
-async fn instance(inst: usize, bin: &str, rng: &mut Rng, out: &mut Out) {
+/// the command-line configuration of one instance
+#[derive(Clone, Debug)]
+struct Plan {
+    store: &'static str,
+    buffer: u64,
+    max_denied: u64,
+    log_level: &'static str,
+}
+
+/// seed-chosen configurations; with 3 instances or more at least one runs at `--log-level debug` with a
+/// denied-keys report large enough (100) to list every key denied in the instance
+fn plan_instances(rng: &mut Rng, instances: usize) -> Vec<Plan> {
+    let mut plans: Vec<Plan> = (0..instances)
+        .map(|_| Plan {
+            store: rng.pick(&["periodic", "adaptive", "probabilistic"]),
+            buffer: rng.pick(&[1u64, 2, 100_000]),
+            max_denied: rng.pick(&[0u64, 5, 100]),
+            log_level: rng.pick(&["error", "info", "debug"]),
+        })
+        .collect();
+    if instances >= 3 && !plans.iter().any(|p| p.log_level == "debug" && p.max_denied == 100) {
+        let i = rng.below(instances as u64) as usize;
+        plans[i].log_level = "debug";
+        plans[i].max_denied = 100;
+    }
+    plans
+}
+
+async fn instance(inst: usize, bin: &str, plan: &Plan, rng: &mut Rng, out: &mut Out) {
     let ports = free_ports();
-    let store = rng.pick(&["periodic", "adaptive", "probabilistic"]);
-    let buffer = rng.pick(&[1u64, 2, 100_000]);
-    let max_denied = rng.pick(&[0u64, 5, 100]);
-    let descr = format!("instance {inst} store {store} buffer-size {buffer} max-denied-keys {max_denied}");
+    let Plan { store, buffer, max_denied, log_level } = plan.clone();
+    let descr = format!("instance {inst} store {store} buffer-size {buffer} max-denied-keys {max_denied} log-level {log_level}");
     let args: Vec<String> = [
         "--http", "--http-host", "127.0.0.1", "--http-port", &ports.http.to_string(),
         "--grpc", "--grpc-host", "127.0.0.1", "--grpc-port", &ports.grpc.to_string(),
         "--redis", "--redis-host", "127.0.0.1", "--redis-port", &ports.resp.to_string(),
         "--store", store, "--buffer-size", &buffer.to_string(), "--max-denied-keys", &max_denied.to_string(),
-        "--log-level", "error",
+        "--log-level", log_level,
     ]
     .iter()
     .map(|s| s.to_string())
@@ -634,6 +811,7 @@ async fn instance(inst: usize, bin: &str, rng: &mut Rng, out: &mut Out) {
     };
     out.bump("instances");
     out.bump(&format!("store_{store}"));
+    out.bump(&format!("log_level_{log_level}"));
     // all three ports must accept connections within 10 s
     let deadline = Instant::now() + Duration::from_secs(10);
     let mut up = [false; 3];
@@ -662,11 +840,11 @@ async fn instance(inst: usize, bin: &str, rng: &mut Rng, out: &mut Out) {
     // the probe connections carry no request and count for nothing
     tokio::time::sleep(Duration::from_millis(20)).await;
     out.sample(format!("launched: {launch}"));
-    let mut cx = Cx { ports, rng: rng.fork(), tally: Tally::default(), log: vec![], resp_conn: None, launch };
+    let mut cx = Cx { ports, rng: rng.fork(), tally: Tally::default(), log: vec![], resp_conn: None, launch, denied_keys: BTreeMap::new() };
 
     shared_limiter(&mut cx, inst, out).await;
     same_answers(&mut cx, inst, out).await;
-    no_poison(&mut cx, inst, &mut child, out).await;
+    no_poison(&mut cx, inst, max_denied, &mut child, out).await;
     check_metrics(&mut cx, inst, max_denied, out).await;
     if let Some(st) = child.exited() {
         out.violation("C11", format!("the server process ended by itself ({st})"), cx.tail(cx.log.len().saturating_sub(20)));
@@ -697,9 +875,10 @@ pub fn run(seed: u64, n: usize, out: &mut Out) {
     let rt = tokio::runtime::Builder::new_multi_thread().worker_threads(4).enable_all().build().unwrap();
     let mut rng = Rng::new(seed);
     let instances = (n / 10).clamp(1, 12);
+    let plans = plan_instances(&mut rng, instances);
     rt.block_on(async {
-        for inst in 0..instances {
-            instance(inst, &bin, &mut rng, out).await;
+        for (inst, plan) in plans.iter().enumerate() {
+            instance(inst, &bin, plan, &mut rng, out).await;
         }
     });
     rt.shutdown_background();
